@@ -1,4 +1,39 @@
 use super::Value;
+use std::cmp::Ordering;
+
+/// Exact comparison of an integer with a float: the integer is never rounded through
+/// `f64` (which cannot represent every integer beyond 2^53). `None` if the float is NaN.
+pub(super) fn compare_int_with_float(int_value: i64, float_value: f64) -> Option<Ordering> {
+    if float_value.is_nan() {
+        return None;
+    }
+    // -2^63 and 2^63 are exactly representable; everything outside is beyond any i64.
+    if float_value >= 9_223_372_036_854_775_808.0 {
+        return Some(Ordering::Less);
+    }
+    if float_value < -9_223_372_036_854_775_808.0 {
+        return Some(Ordering::Greater);
+    }
+    let truncated = float_value.trunc();
+    // Exact: `truncated` is integral and inside [-2^63, 2^63).
+    let order = int_value.cmp(&(truncated as i64));
+    if order != Ordering::Equal {
+        return Some(order);
+    }
+    // Same integral part: the fractional part of the float decides.
+    truncated.partial_cmp(&float_value)
+}
+
+/// Exact numeric comparison of two Int/Float values. `None` if either is NaN or not numeric.
+pub(super) fn compare_numeric_values(left: &Value, right: &Value) -> Option<Ordering> {
+    match (left, right) {
+        (Value::Int(l), Value::Int(r)) => Some(l.cmp(r)),
+        (Value::Float(l), Value::Float(r)) => l.partial_cmp(r),
+        (Value::Int(l), Value::Float(r)) => compare_int_with_float(*l, *r),
+        (Value::Float(l), Value::Int(r)) => compare_int_with_float(*r, *l).map(Ordering::reverse),
+        _ => None,
+    }
+}
 
 pub(super) fn value_as_f64(value: &Value) -> Option<f64> {
     match value {
@@ -156,5 +191,39 @@ pub(super) fn numeric_pow(left: &Value, right: &Value) -> Value {
         (Value::Float(l), Value::Int(r)) => Value::Float(l.powf(*r as f64)),
         (Value::Float(l), Value::Float(r)) => Value::Float(l.powf(*r)),
         _ => Value::Null,
+    }
+}
+
+#[cfg(test)]
+mod tests {
+    use super::{compare_int_with_float, compare_numeric_values};
+    use crate::executor::Value;
+    use std::cmp::Ordering;
+
+    #[test]
+    fn int_float_comparison_is_exact_beyond_2_pow_53() {
+        let two53 = 9_007_199_254_740_992_i64;
+        assert_eq!(
+            compare_int_with_float(two53 + 1, two53 as f64),
+            Some(Ordering::Greater)
+        );
+        assert_eq!(
+            compare_int_with_float(two53, two53 as f64),
+            Some(Ordering::Equal)
+        );
+        assert_eq!(
+            compare_int_with_float(i64::MAX, 9_223_372_036_854_775_808.0),
+            Some(Ordering::Less)
+        );
+        assert_eq!(
+            compare_int_with_float(i64::MIN, -9_223_372_036_854_775_808.0),
+            Some(Ordering::Equal)
+        );
+        assert_eq!(compare_int_with_float(-1, -1.5), Some(Ordering::Greater));
+        assert_eq!(compare_int_with_float(1, f64::NAN), None);
+        assert_eq!(
+            compare_numeric_values(&Value::Int(two53), &Value::Int(two53 + 1)),
+            Some(Ordering::Less)
+        );
     }
 }
